@@ -335,7 +335,8 @@ class Verdict:
             log("%d violations in total; the first 20 are listed" % len(self.violations))
         for what, path in self.violations[:20]:
             print("VIOLATION property=%s replay=%s" % (self.pid, path))
-            log("  ", what)
+            if os.environ.get("VERIF_VERBOSE"):
+                log("  ", what)
         sys.stdout.flush()
         return 1 if self.violations else 0
 
@@ -387,7 +388,7 @@ def split_recordings(path, reset_marker='"a":"Reset"'):
     return groups
 
 
-def run_player(player, scratch, name, script_lines, shards, out_name="hist.ndjson", args_fn=None, timeout=1800):
+def run_player(player, scratch, name, script_lines, shards, out_name="hist.ndjson", args_fn=None, timeout=1800, per_script=True, extra_args=()):
     """Run a player binary on script lines (already serialised), sharded round-robin.
     Header lines (confdefs) are given to every shard. Returns list of (script_line, recording_lines)."""
     headers = [s for s in script_lines if '"confdef"' in s]
@@ -405,10 +406,15 @@ def run_player(player, scratch, name, script_lines, shards, out_name="hist.ndjso
             for s in headers + ch:
                 f.write(s + "\n")
         op = os.path.join(d, out_name)
-        p = run([player, "-scripts", sp, "-out", op], cwd=d, timeout=timeout, check=False)
+        p = run([player, "-scripts", sp, "-out", op] + list(extra_args), cwd=d, timeout=timeout, check=False)
         if p.returncode != 0:
             raise Inconclusive("player %s failed rc=%d: %s %s" % (name, p.returncode, p.stdout.decode(errors="replace")[-500:], p.stderr.decode(errors="replace")[-2000:]))
         groups = split_recordings(op)
+        if not per_script:
+            # one recording per shard: [Reset, line per script ...]
+            if len(groups) != 1 or len(groups[0]) != len(ch) + 1:
+                raise Inconclusive("player %s produced %d lines for %d scripts" % (name, sum(len(g) for g in groups), len(ch)))
+            return [(ch, groups[0])]
         if len(groups) != len(ch):
             raise Inconclusive("player %s produced %d recordings for %d scripts" % (name, len(groups), len(ch)))
         return list(zip(ch, groups))
